@@ -98,7 +98,17 @@ setup(int n, char** tok, int from, int* bar)
     if (!strcmp(tok[i], "|")) { *bar = i; return; }
     if (tok[i][0] == 'd') mkdir(tok[i] + 2, 0755);
     else if (tok[i][0] == 'f') { FILE* f = fopen(tok[i] + 2, "w"); if (f) { fputs("x", f); fclose(f); } }
-    else if (tok[i][0] == 'l') { char* gt = strchr(tok[i], '>'); if (gt) { *gt = 0; if (symlink(gt + 1, tok[i] + 2)) {} *gt = '>'; } }
+    else if (tok[i][0] == 'l') {
+      // l:name>target ; a target starting with '@' is absolute: the working directory followed by the rest
+      char* gt = strchr(tok[i], '>');
+      if (gt) {
+        char target[PATH_MAX];
+        if (gt[1] == '@') snprintf(target, sizeof(target), "%s%s", work, gt + 2); else snprintf(target, sizeof(target), "%s", gt + 1);
+        *gt = 0;
+        if (symlink(target, tok[i] + 2)) {}
+        *gt = '>';
+      }
+    }
   }
 }
 
